@@ -53,22 +53,32 @@ pub fn main(args: &[String]) {
     for _ in 0..n {
         let mut m = serde_json::Map::new();
         let cnt = rng.below(6);
+        // values of every kind (a member whose value is null, false, 0, "" or empty is a member like any other); they are logged
+        // by a positive code so that the specification can keep 0 for "absent"
+        let specials = [json!(null), json!(false), json!(0), json!(""), json!([]), json!({})];
+        let code = |v: &J| -> u64 {
+            match specials.iter().position(|s| s == v) {
+                Some(i) => 11 + i as u64,
+                None => v.as_u64().unwrap(),
+            }
+        };
         for _ in 0..cnt {
-            m.insert(rng.pick(&keys).to_string(), json!(rng.below(9) + 1));
+            let v = if rng.below(3) == 0 { rng.pick(&specials).clone() } else { json!(rng.below(9) + 1) };
+            m.insert(rng.pick(&keys).to_string(), v);
         }
-        let members: Vec<J> = m.iter().map(|(k, v)| json!({"k": k, "v": v})).collect();
+        let members: Vec<J> = m.iter().map(|(k, v)| json!({"k": k, "v": code(v)})).collect();
         let mut ops = Vec::new();
         for _ in 0..rng.below(4) {
             let k = *rng.pick(&keys);
             let res = match Map::remove(&mut m, k) {
-                Some(v) => json!({"z": "some", "v": v}),
+                Some(v) => json!({"z": "some", "v": code(&v)}),
                 None => json!({"z": "none", "v": 0}),
             };
             ops.push(json!({"k": k, "res": res}));
         }
         let len = Map::len(&m);
         let is_empty = Map::is_empty(&m);
-        let iter: Vec<J> = Map::into_iter(m).map(|(k, v)| json!({"k": k, "v": v})).collect();
+        let iter: Vec<J> = Map::into_iter(m).map(|(k, v)| json!({"k": k, "v": code(&v)})).collect();
         out.emit(&json!({"e": "reset", "k": "map", "inp": {"members": members, "ops": ops}, "members": members, "ops": ops, "len": len, "is_empty": is_empty, "iter": iter}));
     }
     // Sequence: Vec and arrays
